@@ -35,7 +35,7 @@ VARIABLES
 
 ConstInit == /\ MAX \in Nat
              /\ MAX >= 2
-             /\ Threads = {1, 2, 3}
+             /\ Threads = {1, 2, 3, 4, 5, 6}
 
 Vals == Int   \* TLC: overridden by 0..MAX
 
